@@ -46,7 +46,8 @@ CONSTANTS Tiles,             \* set of tile names
           StoreTrunc,        \* TRUE: the backend stores whole seconds only (sqlite datetime)
           Rules,             \* serving rules explored by SetThreshold
           SeedRules,         \* rules explored by SeedRefresh
-          ExpirePrecedence   \* "serving" | "task"  (see above)
+          ExpirePrecedence,  \* "serving" | "task"  (see above)
+          Backdating         \* the environment may set back the time stamp of single tiles (Backdate below)
 
 VARIABLES cache,     \* [Tiles -> [m : tick, v : version]]   Absent = not cached
           rule,      \* refresh_before of the cache configuration
@@ -195,6 +196,13 @@ UpstreamRecover == ~up /\ up' = TRUE /\ Env /\ UNCHANGED <<cache, rule, fileM, c
 RemoveTile(t)   == /\ cache[t] # Absent /\ cache' = [cache EXCEPT ![t] = Absent] /\ Env
                    /\ UNCHANGED <<rule, fileM, up, clock, log>>
 
+\* the time stamp of one tile is set back behind the back of the tile manager (a tile restored from a backup, written
+\* earlier through another path, `touch -d`): the tiles of a meta tile need not be of one age.  (File caches: the
+\* harness cannot set single time stamps in the sqlite backends.)
+Backdate(t)     == /\ Backdating /\ ~StoreTrunc /\ cache[t] # Absent /\ cache[t].m > 1
+                   /\ cache' = [cache EXCEPT ![t].m = 1] /\ Env
+                   /\ UNCHANGED <<rule, fileM, up, clock, log>>
+
 SeqsOf(S) == {q \in UNION {[1 .. k -> S] : k \in 1 .. Cardinality(S)} : \A i, j \in 1 .. Len(q) : i # j => q[i] # q[j]}
 
 \* the threshold file was written half a second after the epoch (a fractional mtime), now is second 1
@@ -208,7 +216,7 @@ Next ==
   \/ TouchThresholdFile
   \/ \E r \in Rules : SetThreshold(r)
   \/ UpstreamFail \/ UpstreamRecover
-  \/ \E t \in Tiles : RemoveTile(t)
+  \/ \E t \in Tiles : RemoveTile(t) \/ Backdate(t)
 
 Spec == Init /\ [][Next]_vars
 
@@ -222,6 +230,11 @@ TypeOK ==
 \* tiles of one meta tile are written together
 UnitUniform == Path = "meta" => \A t1, t2 \in Tiles :
                   (MetaOf[t1] = MetaOf[t2] /\ cache[t1] # Absent /\ cache[t2] # Absent) => cache[t1] = cache[t2]
+
+\* ... as a property of the steps (holds also where single time stamps are set back afterwards)
+WrittenTogether ==
+  [][Path = "meta" => \A i \in Len(log) + 1 .. Len(log') : log'[i].ok =>
+        \A t1, t2 \in UnitTiles(log'[i].u) : cache'[t1] = cache'[t2]]_vars
 
 \* the action names tell the outcome
 OutcomeOK ==
